@@ -183,7 +183,9 @@ package git
 //@   call 0 strconv.ParseUint as sz
 //@   call 0 NewOID as id
 //@   call 0 NewOID assert same(arg_0, words[0])
-//@   call 0 strconv.ParseUint assert same(arg_0, words[2]) && arg_1 == 10
+// the size is parsed at full width and then saturated (a huge blob is reported
+// as the capacity, C05), not rejected by a narrower parse
+//@   call 0 strconv.ParseUint assert same(arg_0, words[2]) && arg_1 == 10 && (arg_2 == 0 || arg_2 == 64)
 //@   ensures result1 == nil ==> id_reached && result0.OID == id0 && same(result0.ObjectType, words[1])
 //@   ensures len(header) == 0 ==> result1 != nil
 //@   ensures len(header) > 0 && words[len(words)-1] == "missing" ==> result1 != nil
@@ -426,7 +428,7 @@ package git
 //@ property C13: (*Repository).GitCommand (*Repository).IsFull NewRepositoryFromGitDir
 //@ property C17: (*Repository).GitCommand (*Repository).GetConfig (*Repository).GitPath (*Repository).ConfigStringDefault (*Repository).ConfigBoolDefault (*Repository).ConfigIntDefault (*Repository).ResolveObject (*Repository).NewObjectIter (*Repository).NewBatchObjectIter (*Repository).NewReferenceIter
 //@ property C13: structural/exec-command-sites
-//@ property C17: structural/exec-command-sites structural/gitcommand-callers structural/no-write-apis structural/no-map-iteration
+//@ property C17: structural/exec-command-sites structural/gitcommand-callers structural/no-write-apis structural/no-map-iteration structural/atomic-consistency
 //@ property C01: (*Repository).NewObjectIter (*Repository).NewBatchObjectIter (*Repository).NewReferenceIter
 //@ property C03: (*Repository).NewObjectIter
 //@ property C09: (*Repository).NewObjectIter (*Repository).NewBatchObjectIter structural/no-map-iteration
